@@ -55,6 +55,7 @@ func credContent(kind int, n int) []byte {
 }
 
 func c18Render(base *spec.Packet, n, uk, pk int, wire bool) (string, string) {
+	resetGlobals()
 	p := base.Clone()
 	p.HasUser, p.User = true, credContent(uk, n)
 	p.HasPass, p.Pass = true, credContent(pk, n)
